@@ -18,10 +18,11 @@
 Extracted from the text of that module:
   * nodes     : every defined function, every declared (external) function, three pseudo nodes
                 for calls the extractor cannot resolve and one pseudo node for atomic
-                read-modify-write instructions (`atomicrmw`, `cmpxchg`: the building block of a
-                lock that has no callee, e.g. a std::atomic_flag spin lock)
+                read-modify-write instructions (`atomicrmw`, `cmpxchg`) that stand inside a loop:
+                the building block of a lock that has no callee, e.g. a std::atomic_flag spin lock
   * edges     : direct call/invoke edges; a function whose body contains an atomic
-                read-modify-write instruction has an edge to that pseudo node; a virtual call
+                read-modify-write instruction in a basic block that lies on a cycle of its control
+                flow graph has an edge to that pseudo node; a virtual call
                 (callee loaded from a slot of a `vtable pointer` load) is resolved to the functions
                 in that slot of the vtables of the receiver's static class and its derived
                 classes, restricted to the classes that are instantiated by code the realtime
@@ -95,6 +96,10 @@ def cmake_config():
         cpp = [x for x in m.group(1).split() if re.search(r"^src/.*\.(c|cpp)$", x)]
     return {"cxx_std": ("gnu++" if ext else "c++") + cxxstd, "c_std_core": c_core, "c_std_other": c_other,
             "build_type": btype, "opt": BUILD_TYPE_FLAGS.get(btype, []), "defs": defs, "core_c": core, "cpp_target": cpp}
+
+
+# when the tree no longer compiles at the lowest level, the `min` configuration moves up to the lowest level it compiles at
+MIN_FALLBACK_CXX = ["-std=c++14", "-std=c++17"]
 
 
 def configs():
@@ -235,7 +240,7 @@ INTRINSIC_OK = re.compile(r"^llvm\.(memcpy|memmove|memset|lifetime|stacksave|sta
 PSEUDO_UNRESOLVED = "<indirect call with no address-taken candidate>"
 PSEUDO_ASM = "<inline asm>"
 PSEUDO_UNPARSED = "<call the extractor could not parse>"
-PSEUDO_ATOMIC = "<atomic read-modify-write instruction>"
+PSEUDO_ATOMIC = "<atomic read-modify-write in a loop>"
 
 
 class TranslatorError(Exception):
@@ -261,7 +266,25 @@ def sources(cfg):
 
 
 def build_ir(cfg):
-    """Returns (path of linked module text, key, 'cached'|'built')."""
+    """Returns (path of linked module text, key, 'cached'|'built').  The `min` configuration falls back to the next
+    language level when the tree does not compile at c++11 (a project that builds at C++17 may use it)."""
+    if cfg["name"] != "min":
+        return _build_ir(cfg)
+    last = None
+    for cxx in [cfg["cxx"]] + [[x] for x in MIN_FALLBACK_CXX]:
+        c = dict(cfg, cxx=cxx)
+        try:
+            r = _build_ir(c)
+            cfg["cxx_used"] = cxx
+            if cxx != cfg["cxx"]:
+                cfg["what"] = cfg["what"].replace(cfg["cxx"][0], cxx[0] + " (the tree does not compile at " + cfg["cxx"][0] + ")")
+            return r
+        except vlib.BuildError as e:
+            last = e
+    raise last
+
+
+def _build_ir(cfg):
     hdir = os.path.join(vlib.VERIF, "harness")
     deps = [os.path.join(hdir, d) for d in HARNESS_DEPS]
     flags = ["-S", "-emit-llvm", "-DRTOSC_VERIF"] + cfg["opt"]
@@ -789,6 +812,20 @@ def parse_module(path):
                 continue
             normal.add(x)
             stack.extend(succ[x][0])
+        cyc = {}
+
+        def in_cycle(bl0):
+            """can control come back to block bl0 (any edge, unwind edges included)?"""
+            if bl0 not in cyc:
+                seen_, st = set(), list(succ[bl0][0] | succ[bl0][1])
+                while st:
+                    y = st.pop()
+                    if y in seen_ or y not in succ:
+                        continue
+                    seen_.add(y)
+                    st.extend(succ[y][0] | succ[y][1])
+                cyc[bl0] = bl0 in seen_
+            return cyc[bl0]
         defs = {}
         for k in range(a + 1, b):
             dm_ = _DEFLINE.match(text[k])
@@ -802,9 +839,10 @@ def parse_module(path):
                 if not m:
                     note_addr(line)
                     am = _ATOMIC.match(line)
-                    if am:
-                        # an atomic read-modify-write: what a lock without a callee is made of.  Counted wherever it
-                        # stands (also in a landing pad: a lock taken by a destructor is still a lock)
+                    if am and in_cycle(bl):
+                        # an atomic read-modify-write inside a loop: what a lock without a callee (spin lock, ticket
+                        # lock) or a retry loop is made of.  Counted wherever it stands (also in a landing pad).  One
+                        # outside of any loop (a counter, a flag set once) completes in a bounded number of steps.
                         f.atomics.append(line.strip()[:120])
                         f.calls.append(("atomic", None, None, bl))
                     continue
@@ -1039,7 +1077,7 @@ def build_graph(funcs, addr_taken, problems, meta=None):
         if n in (PSEUDO_UNRESOLVED, PSEUDO_ASM, PSEUDO_UNPARSED):
             g.cls[n] = ("forbidden", "call the extractor cannot resolve")
         elif n == PSEUDO_ATOMIC:
-            g.cls[n] = ("forbidden", "atomic read-modify-write instruction (atomicrmw / cmpxchg): a lock or a retry loop without a callee")
+            g.cls[n] = ("forbidden", "atomic read-modify-write instruction (atomicrmw / cmpxchg) inside a loop: a lock or a retry loop without a callee")
         else:
             g.cls[n] = classify_external(n)
     # a defined function with a forbidden name (e.g. a replaced operator new) stays forbidden
@@ -1160,7 +1198,7 @@ def emit_lean(g, key, cfg):
         len(g.whitelist), len(g.reach), len(g.indirect_sites), g.virtual_resolved))
     L.append("classes with a vtable: %s" % ", ".join(g.classes)[:600])
     L.append("instantiated (entries + harness support + static initialisers): %s" % ", ".join(g.instantiated)[:600])
-    L.append("functions containing an atomic read-modify-write instruction: %s" % (", ".join(dm[n][:80] for n in g.atomic_functions)[:800] or "none"))
+    L.append("functions containing an atomic read-modify-write instruction in a loop: %s" % (", ".join(dm[n][:80] for n in g.atomic_functions)[:800] or "none"))
     L.append("-/")
     L.append("import RtoscModel.CallGraph.Reach")
     L.append("")
@@ -1209,7 +1247,7 @@ def emit_lean(g, key, cfg):
         L.append("-- entry %d %s" % (g.idx[n], dm[n][:160]))
     L.append("")
     L.append("/-- functions that allocate, free, lock, throw or block, the pseudo nodes for unresolvable calls and the pseudo")
-    L.append("    node for atomic read-modify-write instructions -/")
+    L.append("    node for atomic read-modify-write instructions inside a loop -/")
     L.append("def forbidden : List Nat :=\n  " + nat_list(g.idx[n] for n in g.forbidden))
     for n in g.forbidden:
         L.append("-- forbidden %d %s" % (g.idx[n], dm[n][:160]))
